@@ -42,6 +42,7 @@ def run(chk: Check, proj: Project) -> None:
     s6_defined_is_not_none(chk, proj, m)
     s7_declared_collections_not_mutated(chk, proj, m)
     s8_own_media_always_normalised(chk, proj, m)
+    s9_css_sequence_forms(chk, proj, m)
 
 
 def s5_css_forms(chk: Check, proj: Project, m) -> None:
@@ -531,3 +532,31 @@ MANIFEST = {
     "note": "Trusted: Django's Media.__add__ merge. Not decided: the resulting file set/order; behaviour on real files.",
     "technique": "static table agreement, def-use cone / purity analysis of the memo, dominance, lint with positive fixture",
 }
+
+
+def s9_css_sequence_forms(chk: Check, proj: Project, m) -> None:
+    chk.rule("S9", "the sequence short form of Media.css is accepted for the sequence types its sibling Media.js accepts (js passes every non-path value through, so a tuple works there) and Django's own Media accepts: the class test of the branch that wraps `css` into {'all': css} covers list AND tuple - a tuple must not fall through to the `must be str, list, or dict` error at class creation")
+    f = m.func("_normalize_media")
+    mp = params(f)[0]
+    css = f"{mp}.css"
+    wraps = []
+    for st in ast.walk(f):
+        if isinstance(st, ast.If):
+            for b in st.body:
+                if isinstance(b, ast.Assign) and norm(b.targets[0]) == css and isinstance(b.value, ast.Dict) and len(b.value.keys) == 1 and isinstance(b.value.values[0], ast.Name if False else ast.expr) and norm(b.value.values[0]) == css:
+                    wraps.append(st)
+    if not wraps:
+        chk.undecided("S9", "component_media:_normalize_media:css-sequence-form", m.loc(f), "no branch of the shape `if <test>: media.css = {'all': media.css}` found: cannot decide which sequence types are accepted")
+        return
+    for st in wraps:
+        t = st.test
+        if isinstance(t, ast.Call) and isinstance(t.func, ast.Name) and t.func.id == "isinstance" and len(t.args) == 2 and norm(t.args[0]) == css:
+            cls = t.args[1]
+            names = {norm(e) for e in (cls.elts if isinstance(cls, ast.Tuple) else [cls])}
+            wide = names & {"Sequence", "Iterable", "Collection", "typing.Sequence", "collections.abc.Sequence", "abc.Sequence"}
+            ok = bool(wide) or {"list", "tuple"} <= names
+            chk.ob("S9", "component_media:_normalize_media:css-sequence-form", m.loc(st), ok,
+                   f"`{short(t)}` accepts lists and tuples" if ok else
+                   f"`{short(t)}` accepts {sorted(names)} only: `class Media: css = (\"a.css\", \"b.css\")` (the form `js` accepts, and Django's Media too) raises ValueError at class creation, and Component.media never lists those files")
+        else:
+            chk.holds("S9", "component_media:_normalize_media:css-sequence-form", m.loc(st), f"the wrapping branch is guarded by `{short(t)}`, not by a class test that could leave a sequence type out", nontrivial=False)
